@@ -73,6 +73,17 @@ class P(framework.Prop):
                     out.append(line)
             line = "search %s %s" % (wire.s("[?@ >= @] | length(@)"), wire.val([v, v, 1]))
             out.append(line)
+        # operands given as literals, as fields, and mixed: where an operand comes from does not change the comparison (nor its direction)
+        import json as _json
+        def lit(x):
+            return "`" + _json.dumps(x).replace("`", "\\`") + "`"
+        sub = self.pairs[:(120 if tier == "quick" else 6000)] + [(1, 2), (2, 1), (3, 10), (10, 3), (-1, 1), (1.5, 1), (0, -0.0), ("a", "b"), ("b", "a"), (None, 1), (1, None), ([1], [2]), (True, False)]
+        for a, b in sub:
+            for op, sym in SYM.items():
+                d = wire.val({"l": a, "r": b})
+                for e in ["%s %s %s" % (lit(a), sym, lit(b)), "l %s %s" % (sym, lit(b)), "%s %s r" % (lit(a), sym), "l %s r" % sym,
+                          "[%s %s %s]" % (lit(a), sym, lit(b)), "!(%s %s %s)" % (lit(a), sym, lit(b))]:
+                    out.append("search %s %s" % (wire.s(e), d))
             out.append("search %s %s" % (wire.s("[?@ == @] | length(@)"), wire.val([v, v, 1])))
         return out
 
